@@ -54,6 +54,7 @@ type SPConfig struct {
 	EncStyle   KeyStyle
 	EncKeyIdx  int
 	EncCert    *Cert
+	EncLeaf    *Cert    // TLS key store style: tls.Certificate.Leaf (a parsed-certificate cache) set to this certificate
 	EncCertRaw []byte   // when non-nil: the key store hands out these bytes instead (empty / unparsable certificate faults)
 	EncKeyErr  error    // when non-nil: the field key store fails
 	SigStyle   KeyStyle // KeyNone = no separate signing key
@@ -125,6 +126,13 @@ func NewSPNode(cfg *SPConfig, simNow func() time.Time) (*SPNode, error) {
 	}
 	if err := applyKeyRaw(sp, cfg.EncStyle, cfg.EncKeyIdx, cfg.EncCert, false, cfg.EncCertRaw, cfg.EncKeyErr); err != nil {
 		return nil, err
+	}
+	if cfg.EncLeaf != nil && cfg.EncStyle == KeyTLS {
+		if ks, ok := sp.SPKeyStore.(dsig.TLSCertKeyStore); ok {
+			tc := tls.Certificate(ks)
+			tc.Leaf = cfg.EncLeaf.X509
+			sp.SPKeyStore = dsig.TLSCertKeyStore(tc)
+		}
 	}
 	if err := applyKey(sp, cfg.SigStyle, cfg.SigKeyIdx, cfg.SigCert, true); err != nil {
 		return nil, err
